@@ -51,6 +51,13 @@ pub fn programs() -> Vec<(String, Module)> {
             module(vec![("main", func(&[], vec![sg("t", C::CreateTable), C::Repeat { n: b(int(k)), i: Some("i".into()), body: b(comp(vec![sg("v", s("value string")), C::SetProperty(b(rv("v")), b(rv("t")), b(rv("i"))), sg("junk", s(lit))])) }, sg("len", C::Len(b(rv("t"))))]))]),
         ));
     }
+    // one object as key and as value of a new entry; an entry overwritten with itself
+    for k in [10i64, 400] {
+        v.push((
+            format!("same-key-and-value-churn-{k}"),
+            module(vec![("main", func(&[], vec![C::Repeat { n: b(int(k)), i: None, body: b(comp(vec![sg("sk", s(lit)), sg("t", C::CreateTable), C::SetProperty(b(rv("sk")), b(rv("t")), b(rv("sk"))), C::SetProperty(b(rv("sk")), b(rv("t")), b(rv("sk"))), C::SetProperty(b(rv("t")), b(rv("t")), b(int(1)))])) }, sg("done", int(1))]))]),
+        ));
+    }
     // replacing a large live structure: the old one becomes garbage
     v.push((
         "replace-big-table".into(),
@@ -232,6 +239,11 @@ fn ledger_run(m: &Module, prog: &CaoCompiledProgram, limit: usize, force_all: bo
                     Ok(()) => "Ok".to_string(),
                     Err(e) => realrun::payload_kind(&e.payload),
                 };
+                // no guard can be alive once the run has returned
+                let guarded = verif::objects(&vm.runtime_data).iter().filter(|o| o.marker == 3 && !o.dead).count();
+                if guarded > 0 {
+                    *gc_mismatch.borrow_mut() = Some(format!("{guarded} object(s) are still marked as guarded after the run returned: no collection will ever reclaim them"));
+                }
                 if verif::gc_count() > gcs_before || force_all {
                     // after the run: everything in the object list must be reachable or guarded,
                     // everything reachable must be in the list
@@ -368,7 +380,7 @@ impl Check for C05 {
     }
     fn info(&self, tier: Tier) -> CheckInfo {
         CheckInfo {
-            rule: format!("{} programs whose live data is rooted in globals / locals of main (string incl. multi-byte UTF-8, table, closure, function-pointer churn with 10 / 1000 / 50000 iterations; tables growing to 10 / 200 / 3000 entries; a table of strings next to garbage; replacing a 300-entry table 40 times) x {} memory limits (every multiple of 64 B up to 8 KiB, powers of two and their midpoints up to 1.5 MiB): a shadow ledger fed by the allocator hooks checks at EVERY alloc / dealloc / failed-alloc event that the counter equals the sum of the charges of the outstanding allocations, never exceeds the limit, is unchanged by a failed allocation, and that releases use the layout of the allocation; after clear the counter is 0 and nothing is outstanding (run-clear and run-clear-run-clear histories), after dropping the VM nothing is outstanding; after every run in which a collection ran, a fresh collection is forced and the object list is compared with an independent reachability traversal over the hook's object views (roots: value stack, globals, frame closures, open upvalues, guarded objects); OOM discipline: peak(P) = max over allocations of (counter after a collection at that allocation + request), measured by a run that collects at every allocation; every limit >= peak(P) must not report OutOfMemory; the long churn programs must complete under every limit >= 256 KiB. 'states' = programs for which every limit held", programs().len(), limits(tier).len()),
+            rule: format!("{} programs whose live data is rooted in globals / locals of main (string incl. multi-byte UTF-8, table, closure, function-pointer churn with 10 / 1000 / 50000 iterations; tables growing to 10 / 200 / 3000 entries; a table of strings next to garbage; one fresh object as key and value of the same entry; replacing a 300-entry table 40 times) x {} memory limits (every multiple of 64 B up to 8 KiB, powers of two and their midpoints up to 1.5 MiB): a shadow ledger fed by the allocator hooks checks at EVERY alloc / dealloc / failed-alloc event that the counter equals the sum of the charges of the outstanding allocations, never exceeds the limit, is unchanged by a failed allocation, and that releases use the layout of the allocation; after clear the counter is 0 and nothing is outstanding (run-clear and run-clear-run-clear histories), after dropping the VM nothing is outstanding; after every run in which a collection ran, a fresh collection is forced and the object list is compared with an independent reachability traversal over the hook's object views (roots: value stack, globals, frame closures, open upvalues, guarded objects), and after every run no object may still carry the guard marker; OOM discipline: peak(P) = max over allocations of (counter after a collection at that allocation + request), measured by a run that collects at every allocation; every limit >= peak(P) must not report OutOfMemory; the long churn programs must complete under every limit >= 256 KiB. 'states' = programs for which every limit held", programs().len(), limits(tier).len()),
             bound: "full product".into(),
             exhaustive: true,
             assumptions: vec!["memory the tables' key vectors and closures' upvalue vectors take from the global allocator is not routed through the VM allocator and is therefore not part of 'accounted'".into(), "which allocation fails is decided by the limit (real failure path); no failure is injected into the VM allocator".into()],
